@@ -1270,6 +1270,14 @@ impl Formatter {
         let mut s = input.as_ref().as_bytes();
 
         let mut dt = NaiveDateTime::new();
+        // An interval has no implicit leading field: a year-month interval without a
+        // year field has zero years, a day-time interval without a day field has zero days.
+        if T::IS_INTERVAL_YM {
+            dt.year = 0;
+        }
+        if T::IS_INTERVAL_DT {
+            dt.day = 0;
+        }
 
         macro_rules! expect_char {
             ($ch: expr) => {{
